@@ -5,6 +5,7 @@ import (
 	"bytes"
 	"errors"
 	"net"
+	"strings"
 	"sync"
 	"time"
 
@@ -93,17 +94,24 @@ func (cj *CookieJar) getCookiesByHost(host string) []*fasthttp.Cookie {
 	now := time.Now()
 	cookies := cj.hostCookies[host]
 
-	for i := 0; i < len(cookies); i++ {
-		c := cookies[i]
-		// Remove expired cookies.
+	// Remove expired cookies from the jar itself before their objects go back to the pool.
+	kept := cookies[:0]
+	for _, c := range cookies {
 		if !c.Expire().Equal(fasthttp.CookieExpireUnlimited) && c.Expire().Before(now) {
-			cookies = append(cookies[:i], cookies[i+1:]...)
 			fasthttp.ReleaseCookie(c)
-			i--
+			continue
 		}
+		kept = append(kept, c)
+	}
+	for i := len(kept); i < len(cookies); i++ {
+		cookies[i] = nil
+	}
+	if len(kept) != len(cookies) {
+		// host may alias the caller's URI buffer, and assigning replaces the key of the entry
+		cj.hostCookies[strings.Clone(host)] = kept
 	}
 
-	return cookies
+	return kept
 }
 
 // Set stores the given cookies for the specified URI host. If a cookie key already exists,
